@@ -139,6 +139,7 @@ pub const RESULT_OUTPUT_FILE_NAME: &⟦'static ⟧str = "result.json.zst";
 //!end
 }
 impl Config {
+//!assumed src/core/mod.rs Config::get_run_path sha=ba8d945321eb263f
     // ASSUMED (repo function core/mod.rs): <work_path>/<out_dir>/run
     #[verifier::external_body] pub fn get_run_path(&self, work_path: &path::Path) -> (r: path::PathBuf) { unimplemented!() }
 }
